@@ -4,6 +4,7 @@ Inline tokenizer for mistletoe.
 
 import html
 import re
+from html.entities import html5 as html5_entities
 
 
 # replacement for html._charref which matches only entitydefs ending with ';',
@@ -12,6 +13,24 @@ _markdown_charref = re.compile(r'&(#[0-9]{1,7};'
                                r'|#[xX][0-9a-fA-F]{1,6};'
                                r'|[^\t\n\f <&#;]{1,32};)')
 _stdlib_charref = html._charref
+
+
+def unescape(string):
+    """
+    Like html.unescape(), but resolves only what CommonMark regards as a character
+    reference: an unknown name followed by ';' is left alone, whereas html.unescape()
+    would still replace a legacy entity name it finds at its start ('&notit;').
+    """
+    if '&' not in string:
+        return string
+    return _markdown_charref.sub(_replace_charref, string)
+
+
+def _replace_charref(match):
+    ref = match.group(1)
+    if ref[0] == '#':
+        return html.unescape(match.group(0))
+    return html5_entities.get(ref, match.group(0))
 
 
 def tokenize(string, token_types):
@@ -78,7 +97,7 @@ def make_tokens(tokens, start, end, string, fallback_token):
     prev_end = start
     for token in tokens:
         if token.start > prev_end:
-            t = fallback_token(html.unescape(string[prev_end:token.start]))
+            t = fallback_token(unescape(string[prev_end:token.start]))
             if t is not None:
                 result.append(t)
         t = token.make()
@@ -86,7 +105,7 @@ def make_tokens(tokens, start, end, string, fallback_token):
             result.append(t)
         prev_end = token.end
     if prev_end != end:
-        result.append(fallback_token(html.unescape(string[prev_end:end])))
+        result.append(fallback_token(unescape(string[prev_end:end])))
     return result
 
 
